@@ -210,9 +210,9 @@ PROPS = {
 
 LEVELS = {
     "C15": {
-        "text": "Theorems in Coq: the label is Chinese exactly when the message contains a CJK character of the source's class and English otherwise; a clause whose rule carried message m reads path, echo, label, m verbatim; every rule function that supports a message uses the message of its rule text when there is one and default wording only when there is none; the extractor returns exactly the explanations of the clauses that have one, in order, joined by the separator, for every number and order of Chinese-labelled, English-labelled and unlabelled clean clauses (proved via a lemma that splitting a join of separator-free pieces gives the pieces back).",
+        "text": "Theorems in Coq: the label is Chinese exactly when the message contains a CJK character of the source's class and English otherwise; a clause whose rule carried message m reads path, echo, label, m verbatim; every rule function that supports a message uses the message of its rule text when there is one and default wording only when there is none; the extractor returns exactly the explanations of the clauses that have one, in order, joined by the separator, for every number and order of Chinese-labelled, English-labelled and unlabelled clean clauses (proved via a lemma that splitting a join of separator-free pieces gives the pieces back). The go/ast syntax tree of GetJoinValidErrStr — the function that words every rule violation — is REGENERATED FROM /repo ON EVERY RUN and proved (loop invariant over the range loop with continue) to compute the model's clause text for every name, echo and list of further texts; a parser-labelled custom message goes through it verbatim behind its one label.",
         "design_ref": "DESIGN.md section 5, C15",
-        "note": "Trusted: Coq kernel, translator (labels, separator, CJK class), correspondence harness. The extractor's domain excludes echoes/messages that contain the separator or an earlier label (no escaping exists).",
+        "note": "Trusted: Coq kernel, translator (labels, separator, CJK class; minigo.go) and the semantics of Model/GoParse.v (strings.Builder as text, strings.Contains, range/continue), correspondence harness. The extractor's domain excludes echoes/messages that contain the separator or an earlier label (no escaping exists).",
         "technique": "Coq proof (string-splitting lemmas for a two-byte separator, per-rule case analysis) + exact-text and extractor correspondence evaluated in Coq",
     },
     "C08": {
@@ -318,12 +318,13 @@ LEVELS = {
                 "hand-written recognisers, for every string (e-mail included: words separated by single separators, one '@', a '.' in the domain); the "
                 "rule functions write a clause exactly when the value is outside the language (int/float kind dispatch, in/include option extraction, "
                 "ints separators, unique as NoDup, prefix/suffix with protecting quotes stripped); the date layout builder equals the documented layout "
-                "for every mask and separator triple; the re pattern extraction returns the text between the protecting quotes. Oracle-backed rules: "
-                "wiring proved, acceptance delegated.",
+                "for every mask and separator triple; the re pattern extraction returns the text between the protecting quotes. The go/ast syntax tree of "
+                "ToStr (the canonical rendering in/unique compare by) is REGENERATED FROM /repo ON EVERY RUN and proved (type switch, strconv calls) to compute "
+                "the model's to_str on every scalar value. Oracle-backed rules: wiring proved, acceptance delegated.",
         "design_ref": "DESIGN.md section 5, C05",
         "note": "PARTIAL: ip/ipv4/ipv6, year/year2month/date/datetime, re, json, file, dir delegate membership to the standard library (oracles, listed); "
                 "in-builder round trip proved for options without quotes/slashes only (quoted options: correspondence). Trusted: Coq kernel, translator "
-                "(regex trees), correspondence harness.",
+                "(regex trees; minigo.go) and the semantics of Model/GoToStr.v (strconv.FormatFloat's text is a field of the model's float value), correspondence harness.",
         "technique": "Coq proof (regular-language equivalences via Brzozowski derivatives and a two-state scanner; case analysis) + correspondence evaluated in Coq",
     },
     "C20": {
@@ -348,12 +349,12 @@ LEVELS = {
                 "stated set, and at most one clause; the verdict depends on the measure only (width, signedness irrelevant). strconv.Itoa then Atoi is "
                 "the identity on every int64, so for every pair of int64 bounds the builder-written text key=lo~hi|msg is read back as exactly those "
                 "bounds and judged by them. The go/ast syntax trees of validInputSize and eq are REGENERATED FROM /repo ON EVERY RUN and, under a stated "
-                "semantics of the Go forms they use, proved to compute the model for every bound, value and mode. A finite 8-bit sweep through the rule "
+                "semantics of the Go forms they use, proved to compute the model for every bound, value and mode; so are the eight rule functions To, OTo, Ge, Gt, Le, Lt, Eq, NoEq themselves (a call meaning the callee's model): each writes exactly the predicted text — right bound, closed/open mode, custom message or default wording — and writes nothing exactly when the model's rule function reports no clause. A finite 8-bit sweep through the rule "
                 "text is proved by computation. Model also tied to the code by the complete 8-bit sweep and boundary cases evaluated in Coq.",
         "design_ref": "DESIGN.md section 5, C01",
         "note": "Trusted: Coq kernel + vm_compute; translator (rule table); correspondence harness; reflect/strconv/utf8 modelled at the calls used. "
                 "Trusted in addition: the MiniGo translator (harness/cmd/extract/minigo.go, one constructor per go/ast node) and the semantics of Model/GoSize.v "
-                "(int/int64 as Z, uint64(int) as mod 2^64, float64(int) exact). The rule functions To/Ge/.. (message assembly around validInputSize) are hand-modelled.",
+                "(int/int64 as Z, uint64(int) as mod 2^64, float64(int) exact) and of Model/GoRule.v (calls of ParseValidNameKV, validInputSize, eq, GetJoinValidErrStr, ToStr mean their models, each with its own from-source theorem; strconv.Atoi, parseTagTo hand-modelled; unit text and GetJoinFieldErr text abstract).",
         "technique": "Coq proof (case analysis + linear arithmetic over Z, digit induction for Itoa/Atoi, finite sweep by vm_compute) + source-to-Gallina translator with staged symbolic execution proved equal to the model + model-vs-implementation correspondence evaluated in Coq",
     },
     "C10": {
@@ -387,10 +388,10 @@ LEVELS = {
                 "observed outputs, and the label/regex constants are regenerated from the source on every run. The go/ast syntax tree of ParseValidNameKV is "
                 "REGENERATED FROM /repo ON EVERY RUN and, under a stated semantics of the Go forms it uses (strings.Index, slices with run-time bounds, len, "
                 "regexp match, concatenation), proved to compute the model's parse_kv on every byte string; likewise ValidNamesSplit (fast path, the quote-aware "
-                "for loop with its continue statements, the byte stack) is proved to compute names_split for every text and one-byte separator.",
+                "for loop with its continue statements, the byte stack) is proved to compute names_split for every text and one-byte separator; GenValidKV (pooled builder, switch on the key, guarded byte indexing) computes gen_kv for every key and value list, and RM.Set / RM.Get (range over strings.Split, v, ok := m[k], m[k] += x) compute rm_set / rm_get for every rule map — every stage of the round-trip pipeline is the source text's.",
         "design_ref": "DESIGN.md section 5, C14",
         "note": "Trusted: Coq kernel + vm_compute; the Go translator (constants, IncludeZhRe; minigo.go, one constructor per go/ast node) and the semantics of "
-                "Model/GoParse.v and Model/GoSplit.v (internal/stack.go as modelled; UnsafeBytes2Str read as string()); the correspondence harness. GenValidKV and RM are hand-modelled. "
+                "Model/GoParse.v and Model/GoSplit.v (internal/stack.go as modelled; UnsafeBytes2Str read as string()); the correspondence harness. The Go map of RM is the model's association list (only Get observes it); the pooled strings.Builder is the text written so far. "
                 "'|' inside a value is excluded (known finding D14, theorem C14_bar_in_value_refuted).",
         "technique": "Coq proof (induction over strings / rule lists) + source-to-Gallina translator with an interpreter proved equal to the model + model-vs-implementation correspondence evaluated in Coq",
     },
